@@ -233,8 +233,11 @@ def make_listener(key, station):
 class Ctx:
     """Fresh world for one case: restored registries, one station, listener objects, speakers."""
 
-    def __init__(self, orbit, prop, step, lkeys, mode="range", variant=0, shift_us=0, sp_orbit=None):
+    def __init__(self, orbit, prop, step, lkeys, mode="range", variant=0, shift_us=0, sp_orbit=None, backward=False):
         from mc import world
+
+        self.backward = backward
+        self.window = None  # (start_us or None, stop_us or None): Ephem native-step iteration over a window
 
         world.restore(_G["snap"])
         self.orbit, self.prop, self.step, self.lkeys, self.mode = orbit, prop, step, list(lkeys), mode
@@ -260,6 +263,23 @@ class Ctx:
         step = timedelta(seconds=self.step)
         speaker = self.speaker if speaker is None else speaker
         listeners = self.listeners if listeners is None else listeners
+        if self.window is not None:
+            # Ephem, native step, start / stop omitted or given
+            kw = {}
+            if self.window[0] is not None:
+                kw["start"] = _epoch() + timedelta(microseconds=self.window[0])
+            if self.window[1] is not None:
+                kw["stop"] = _epoch() + timedelta(microseconds=self.window[1])
+            return speaker.iter(listeners=listeners, **kw)
+        if self.backward:
+            # iteration running backward in time: start > stop (positive step given, as documented), a decreasing
+            # DateRange, or an explicit decreasing list of dates
+            if self.mode == "range":
+                return speaker.iter(start=stop, stop=start, step=step, listeners=listeners)
+            rng = Date.range(stop, start, -step, inclusive=True)
+            return speaker.iter(dates=list(rng) if self.mode == "dates-list" else rng, listeners=listeners)
+        if self.mode == "dates-list":
+            return speaker.iter(dates=list(Date.range(start, stop, step, inclusive=True)), listeners=listeners)
         if self.mode == "dates":
             return speaker.iter(dates=Date.range(start, stop, step, inclusive=True), listeners=listeners)
         if self.prop == "ephem" and speaker is self.speaker and self.step == 60 and variant != 1 and self.shift_us == 0:
@@ -268,8 +288,20 @@ class Ctx:
         return speaker.iter(start=start, stop=stop, step=step, listeners=listeners)
 
     def grid(self, variant=None):
+        if self.window is not None:
+            lo = EPH_LEAD_US if self.window[0] is None else self.window[0]
+            hi = self.eph_last_us() if self.window[1] is None else self.window[1]
+            return [d for d in range(EPH_LEAD_US, self.eph_last_us() + 1, 60 * 10 ** 6) if lo <= d <= hi]
         s0, s1 = _span(self.orbit, self.step, self.variant if variant is None else variant)
-        return [(s0 + i * self.step) * 10 ** 6 + self.shift_us for i in range((s1 - s0) // self.step + 1)]
+        g = [(s0 + i * self.step) * 10 ** 6 + self.shift_us for i in range((s1 - s0) // self.step + 1)]
+        return g[::-1] if self.backward else g
+
+    def eph_last_us(self):
+        s0, s1 = _span(self.orbit, 60)
+        return (s1 + 1200) * 10 ** 6
+
+
+EPH_LEAD_US = -600 * 10 ** 6  # the ephemerides of make_orbit() start 600 s before the epoch
 
 
 def us_of(date):
@@ -527,10 +559,11 @@ def check_semantics(ctx, items, t, case):
         return
     # -- chronological order of the whole stream ------------------------------------------------------------
     dates = [us_of(it.date) for it in items]
-    bad = [i for i in range(1, len(dates)) if dates[i] < dates[i - 1]]
+    sdir = -1 if ctx.backward else 1
+    bad = [i for i in range(1, len(dates)) if sdir * dates[i] < sdir * dates[i - 1]]
     if bad:
         i = bad[0]
-        t.fail("stream/order", "the whole output stream is in chronological order", case, "non-decreasing dates",
+        t.fail("stream/order", "the whole output stream is in chronological order (in the direction of the iteration)", case, "monotone dates",
                [dates[i - 1], dates[i]], f"items {i-1},{i}: {_lab(items[i-1])} then {_lab(items[i])}")
     # -- values of the watched functions on the samples -------------------------------------------------------
     G = [[float(l(s)) for s in samples] for l in Ls]
@@ -615,15 +648,17 @@ def check_event(ctx, j, key, ev, k, samples, g01, t, case):
     d = us_of(ev.date)
     t.outcome(f"{lt}: {str(ev.event.info)[:14]}")
     # position
-    if not (grid[k] < d <= grid[k + 1]):
-        t.fail(f"event/outside-step/{lt}", "the emitted state lies between the two samples", case, [grid[k], grid[k + 1]], d)
+    sdir = -1 if ctx.backward else 1
+    if not (sdir * grid[k] < sdir * d <= sdir * grid[k + 1]):
+        t.fail(f"event/outside-step/{lt}" + ("/backward" if ctx.backward else ""), "the emitted state lies between the two samples", case,
+               [grid[k], grid[k + 1]], d, f"prop={ctx.prop} mode={ctx.mode}")
         return
     # sharpness: sign change of the watched function within +-W of the emitted state
     W = W_FIXED if key in EARTH_FIXED else W_INERTIAL
-    gm, gp = float(L(neighbour(ctx, ev, -W))), float(L(neighbour(ctx, ev, +W)))
+    gm, gp = float(L(neighbour(ctx, ev, -sdir * W))), float(L(neighbour(ctx, ev, +sdir * W)))  # before / after in iteration order
     t.trans(2)
     if not (sgn(gm) != sgn(gp) and sgn(gm) == sgn(g01[0]) and sgn(gp) == sgn(g01[1])):
-        t.fail(f"event/not-sharp/{lt}", f"the watched quantity changes sign within {W*1e6:.0f} us of the event", case,
+        t.fail(f"event/not-sharp/{lt}" + ("/backward" if ctx.backward else ""), f"the watched quantity changes sign within {W*1e6:.0f} us of the event", case,
                [sgn(g01[0]), sgn(g01[1])], [gm, gp], f"event {_lab(ev)} prop={ctx.prop} step {k}")
     elif abs(gm) != 1.0 and ctx.prop != "sgp4":  # (Sgp4 trajectories are staircases in time: no local slope)
         # continuous g: |g(event)| against the local slope (informative margin; the decision is the sign test above)
@@ -633,11 +668,13 @@ def check_event(ctx, j, key, ev, k, samples, g01, t, case):
             t.margin(f"|g(event)| / (|dg/dt| x {W*1e6:.0f} us) [{ 'Earth-fixed' if key in EARTH_FIXED else 'inertial'} listeners]",
                      g_e, slope * W, case)
     # label
-    exp = expected_label(ctx, key, ev, g01, t)
+    # labels are physical statements (ascending node, periapsis, shadow entry, acquisition of signal): the oracle
+    # evaluates them in physical time, whatever the direction of the iteration
+    exp = expected_label(ctx, key, ev, (g01 if not ctx.backward else (g01[1], g01[0])), t)
     if exp is not None:
         ok = exp(str(ev.event.info))
         if not ok:
-            t.fail(f"event/label/{lt}", "the label matches the direction of the crossing", case, exp.__doc__, str(ev.event.info),
+            t.fail(f"event/label/{lt}" + ("/backward" if ctx.backward else ""), "the label matches the direction of the crossing", case, exp.__doc__, str(ev.event.info),
                    f"event {_lab(ev)} prop={ctx.prop} g before/after = {g01}")
     # station events: independent elevation
     if key in ("sig0", "sig10", "max"):
@@ -746,10 +783,12 @@ def expected_label(ctx, key, ev, g01, t):
 
 def check_closed_forms(ctx, events, t, case):
     grid = ctx.grid()
-    t_lo, t_hi = grid[0] / 1e6, grid[-1] / 1e6
+    t_lo, t_hi = min(grid) / 1e6, max(grid) / 1e6
     for j, key in enumerate(ctx.lkeys):
         lt = ltype(key)
         mine = [ev for _, ev in events if ev.event.listener is ctx.listeners[j]]
+        if ctx.backward:
+            mine = mine[::-1]
         if key in ("umbra", "penumbra"):
             ref = shadow_crossings(ctx.orbit, t_lo, t_hi)[key]
             ref = [(x, f"{key.title()} {d}") for x, d in ref]
@@ -777,7 +816,7 @@ def check_closed_forms(ctx, events, t, case):
                        "Kepler events coincide with the closed-form crossings" if tol < 1e-3 else
                        f"umbra/penumbra entries and exits agree with an independent conical-shadow computation within {tol} s",
                        case, round(x, 6), us_of(ev.date) / 1e6, f"{key} {lab} orbit {ctx.orbit}: off by {us_of(ev.date)/1e6 - x:+.6f} s")
-            if isinstance(lab, str) and str(ev.event.info) != lab:
+            if isinstance(lab, str) and str(ev.event.info) != lab and not ctx.backward:  # (backward: decided by event/label)
                 t.fail(f"closed-form/label/{lt}", "label of the closed-form crossing", case, lab, str(ev.event.info), f"t={x:.3f}")
 
 
@@ -914,15 +953,108 @@ def check_weave(case, t):
     t.outcome(f"weave-ok {len(script)} ops")
 
 
+def check_ephwin(case, t):
+    """Ephem.iter with listeners at the ephemeris' own step, start / stop omitted, on the first / last point, strictly inside
+    on a node or strictly inside between two nodes.  The inside dates are placed right after (start) / right before (stop)
+    an event found by a first full iteration, so that a sign change lies in the recorded interval just outside the window."""
+    orbit, lkeys, sv, ev_ = case["orbit"], case["lset"], case["start"], case["stop"]
+    skey = ("ephwin", orbit, tuple(lkeys), sv, ev_)
+    t.state(skey)
+    c0 = Ctx(orbit, "ephem", 60, lkeys)
+    c0.window = (None, None)
+    first = run_stream(c0, t, case)
+    if first is None:
+        return
+    evd = sorted(us_of(x.date) for x in first if x.event is not None)
+    if len(evd) < 3:
+        t.exclude("window case without enough events")
+        return
+    minute = 60 * 10 ** 6
+    after = lambda d: EPH_LEAD_US + ((d - EPH_LEAD_US) // minute + 1) * minute  # first node after d
+    start = {"omit": None, "first": EPH_LEAD_US, "node": after(evd[1]), "between": after(evd[1]) + 20 * 10 ** 6}[sv]
+    stop = {"omit": None, "last": c0.eph_last_us(), "node": after(evd[-2]) - minute, "between": after(evd[-2]) - minute + 20 * 10 ** 6}[ev_]
+    ctx = Ctx(orbit, "ephem", 60, lkeys)
+    ctx.window = (start, stop)
+    items = run_stream(ctx, t, case)
+    if items is None:
+        return
+    nev = check_semantics(ctx, items, t, case)
+    t.ev(skey if nev else None)
+    t.outcome(f"ephwin start={sv} stop={ev_}")
+
+
+def _ev_list(items):
+    return [(us_of(x.date), None if x.event is None else str(x.event.info)) for x in items]
+
+
+def check_vislist(case, t):
+    """The same `events=` list / `listeners=` list object re-used for several visibility() calls (same station again, another
+    station): every call must give the stream of fresh objects, and the caller's list must be left as it was."""
+    from beyond.dates import timedelta
+    from beyond.frames import create_station
+
+    orbit, prop, step, kw_name, extra, calls = case["orbit"], case["prop"], case["step"], case["kw"], case["extra"], case["calls"]
+    skey = ("vislist", orbit, prop, step, kw_name, tuple(extra), tuple(calls))
+    t.state(skey)
+    s0, s1 = _span(orbit, step)
+    rng = dict(start=_epoch() + timedelta(seconds=s0), stop=_epoch() + timedelta(seconds=s1), step=timedelta(seconds=step))
+
+    def world():
+        ctx = Ctx(orbit, prop, step, [])
+        stations = {"A": ctx.station, "B": create_station("STB" + orbit.upper(), STATION_B[orbit])}
+        return ctx, stations
+
+    def call(station, lst):
+        if kw_name == "events":
+            return list(station.visibility(make_orbit(orbit, prop), events=lst, **rng))
+        return list(station.visibility(make_orbit(orbit, prop), listeners=lst, events=True, **rng))
+
+    try:
+        # reference: fresh world, fresh list, fresh listener objects for every call
+        ref = {}
+        for name in sorted(set(calls)):
+            ctx, stations = world()
+            ref[name] = _ev_list(call(stations[name], [make_listener(k, ctx.station) for k in extra]))
+        ctx, stations = world()
+        user = [make_listener(k, ctx.station) for k in extra]
+        before = list(user)
+        for i, name in enumerate(calls):
+            got = _ev_list(call(stations[name], user))
+            t.trans(len(got))
+            t.state(skey + (i,))
+            if len(user) != len(before) or any(a is not b for a, b in zip(user, before)):
+                t.fail(f"visibility/list-reuse/caller-list-mutated/{kw_name}", "visibility() leaves the caller's list of listeners as it was", case,
+                       [type(x).__name__ for x in before], [type(x).__name__ for x in user], f"after call {i + 1} ({name}) of {calls}")
+                return
+            if got != ref[name]:
+                ge, re_ = [x for x in got if x[1]], [x for x in ref[name] if x[1]]
+                t.fail(f"visibility/list-reuse/stream-differs/{kw_name}", "re-using the same list of listeners for a later visibility() call gives "
+                       "the same stream as fresh objects", case, re_[:10], ge[:10], f"call {i + 1} ({name}) of {calls}: {len(ge)} events vs {len(re_)} fresh")
+                return
+    except Exception as e:
+        t.fail(f"visibility/raises/{prop}", "station.visibility yields a stream", case, "stream", repr(e))
+        return
+    t.ev(skey)
+    t.outcome(f"vislist {kw_name} {calls} ok")
+
+
+STATION_B = {"iss": (-9.0, 6.0, 20.0), "mol": (62.0, -20.0, 100.0), "sso": (-20.0, 168.0, 10.0), "gto": (5.0, 135.0, 10.0)}
+
+
 def check_case(case, t):
     kind = case["kind"]
     if kind == "vis":
         return check_visibility(case, t)
     if kind == "weave":
         return check_weave(case, t)
+    if kind == "ephwin":
+        return check_ephwin(case, t)
+    if kind == "vislist":
+        return check_vislist(case, t)
     orbit, prop, step, lkeys, mode = case["orbit"], case["prop"], case["step"], case["lset"], case.get("mode", "range")
     hist = case.get("hist", ["F"])
-    skey = (kind, orbit, prop, step, mode, tuple(lkeys), tuple(hist), tuple(case.get("align", ())))
+    bwd = case.get("dir") == "bwd"
+    skey = (kind, orbit, prop, step, mode, tuple(lkeys), tuple(hist), tuple(case.get("align", ())), bwd)
     t.state(skey)
     variant, shift = (2 if kind == "hist" else 0), 0
     if kind == "aligned":
@@ -940,7 +1072,7 @@ def check_case(case, t):
         shift = (evd[nth] + off - s0 * 10 ** 6) % (step * 10 ** 6)
     if hist != ["F"]:
         ref = fresh_stream(orbit, prop, step, lkeys, mode, variant, t, case)  # before Ctx(): it restores the registries
-    ctx = Ctx(orbit, prop, step, lkeys, mode, variant, shift)
+    ctx = Ctx(orbit, prop, step, lkeys, mode, variant, shift, backward=bwd)
     if hist == ["F"]:
         items = run_stream(ctx, t, case)
         if items is None:
@@ -1192,6 +1324,31 @@ def cases(tier):
             if not quick:
                 for sc in weave_scripts()[:6]:
                     out.append(dict(kind="weave", orbit=orbit, prop=prop, step=step, mode="dates", lset=WEAVE_SET, script=sc))
+    # iterations running backward in time (start > stop, decreasing DateRange, decreasing list of dates)
+    bw = [("iss", "kepler", 180, "range"), ("iss", "kepler", 180, "dates"), ("iss", "sgp4", 180, "range"), ("iss", "ephem", 180, "dates-list"),
+          ("mol", "kepler", 600, "range")]
+    if not quick:
+        bw += [("iss", "sgp4", 60, "dates-list"), ("iss", "ephem", 60, "dates"), ("mol", "ephem", 600, "dates-list"), ("gto", "kepler", 180, "dates-list"),
+               ("sso", "sgp4", 180, "range"), ("mol", "sgp4", 600, "dates")]
+    for orbit, prop, step, mode in bw:
+        for key in LKEYS:
+            out.append(dict(kind="single", orbit=orbit, prop=prop, step=step, mode=mode, lset=[key], dir="bwd"))
+        out.append(dict(kind="all", orbit=orbit, prop=prop, step=step, mode=mode, lset=list(LKEYS), dir="bwd"))
+    # forward iterations over an explicit list of dates
+    for prop in props:
+        out.append(dict(kind="single", orbit="iss", prop=prop, step=180, mode="dates-list", lset=["node"]))
+    # Ephem at its own step over a window: start / stop omitted, on the end points, strictly inside (on a node, between nodes)
+    for orbit in ("iss",) if quick else ("iss", "mol"):
+        for lset in (["node"], ["apside", "anom-true-90", "umbra", "sig0"]):
+            for sv in ("omit", "first", "node", "between"):
+                for ev_ in ("omit", "last", "node", "between"):
+                    out.append(dict(kind="ephwin", orbit=orbit, prop="ephem", step=60, lset=lset, start=sv, stop=ev_))
+    # the same events= / listeners= list object handed to several visibility() calls
+    for orbit, prop, step in (("iss", "kepler", 180),) if quick else (("iss", "kepler", 180), ("mol", "kepler", 600), ("iss", "sgp4", 180)):
+        for kw_name in ("events", "listeners"):
+            for extra in (["node"], ["umbra", "apside"]):
+                for calls in (["A", "A"], ["A", "B"], ["B", "A", "A"]):
+                    out.append(dict(kind="vislist", orbit=orbit, prop=prop, step=step, kw=kw_name, extra=extra, calls=calls))
     # a sample exactly at / one microsecond around an event date
     for orbit in ("iss",) if quick else ("iss", "mol"):
         for prop in props:
@@ -1242,6 +1399,8 @@ def _cost(c):
     s0, s1 = _span(orbit, step, 2 if c["kind"] in ("hist", "weave") else 0)
     nsamp = (s1 - s0) / step
     lset = c.get("lset") or (["sig0", "max", "mask"] + c.get("extra", []))
+    if c["kind"] == "vislist":
+        lset = ["sig0", "max", "mask"] + c["extra"]
     wl = sum(W_MS.get(k, 0.55) for k in lset)
     revs = (s1 - s0) / _period(orbit)
     events = 2.2 * revs * len(lset)
@@ -1254,6 +1413,10 @@ def _cost(c):
     check = nsamp * 0.33 * wl + 0.33 * events * per_event
     if c["kind"] == "vis":
         total = 2.2 * one_iter + check + nsamp * 1.0
+    elif c["kind"] == "vislist":
+        total = one_iter * (len(c["calls"]) + len(set(c["calls"]))) * 1.3
+    elif c["kind"] == "ephwin":
+        total = 2 * one_iter + check
     elif c["kind"] == "weave":
         total = one_iter * (0.5 * len(c["script"]) + 0.6)
     elif c["kind"] == "hist":
@@ -1274,7 +1437,7 @@ def units(tier, seed):
     target = 2.5 if tier == "quick" else 12.0
     chunks, cur, acc, last = [], [], 0.0, None
     for c in cases(tier):
-        k = (c["kind"], c["orbit"], c["prop"], c["step"])
+        k = (c["kind"], c["orbit"], c["prop"], c["step"], c.get("dir"), c.get("mode"))
         w = _cost(c)
         if cur and (acc + w > target or k != last):
             chunks.append((acc, cur))
